@@ -17,6 +17,7 @@ import NiftyVerif.Lemmas.CgClassicHist
 import NiftyVerif.Lemmas.CgClassicExact
 import NiftyVerif.Lemmas.CgClassicLast
 import NiftyVerif.Lemmas.CgClassicOptimal
+import NiftyVerif.Lemmas.CgClassicKrylov
 import NiftyVerif.Lemmas.CgClassicInstances
 import Mathlib.LinearAlgebra.Dimension.Constructions
 
@@ -600,6 +601,19 @@ theorem cg_optimal_on_subspace (S : Sys V K) (hS : S.SPDP) [FiniteDimensional K 
       (cg S c nreset fuel E).energy.pos - E.pos ∈ W ∧
       ∀ v ∈ W, trueValue S (cg S c nreset fuel E).energy.pos ≤ trueValue S ((cg S c nreset fuel E).energy.pos + v) :=
   cg_optimal S hS c nreset fuel E hE
+
+/-- **Textbook optimality**: the subspace is the Krylov space of the preconditioned operator.  After `k` passes CG returns
+    the minimiser of the energy over `x₀ + K_k(P A, P r₀)`, `K_k = span{(P A)^j P r₀ : j < k}`, and `dim K_k = k`
+    (`r₀ = A x₀ − b`). -/
+theorem cg_optimal_on_krylov (S : Sys V K) (hS : S.SPDP) [FiniteDimensional K V] (c : Ctrl K τ) (nreset : Int)
+    (fuel : Nat) (E : QE V K) (hE : E.Consistent S) :
+    ∃ k, k = (cg S c nreset fuel E).iters.length ∧
+      Module.finrank K (krylov S (precond S (trueGrad S E.pos)) k) = k ∧
+      (cg S c nreset fuel E).energy.pos - E.pos ∈ krylov S (precond S (trueGrad S E.pos)) k ∧
+      ∀ v ∈ krylov S (precond S (trueGrad S E.pos)) k,
+        trueValue S (cg S c nreset fuel E).energy.pos ≤ trueValue S ((cg S c nreset fuel E).energy.pos + v) := by
+  rw [← hE.1]
+  exact cg_krylov S hS c nreset fuel E hE
 
 /-- With a compatible complex structure `J` (`J² = −1`, isometry of `ip`, commuting with `A` and the preconditioner —
     multiplication by `i` for a complex Hermitian system) CG makes at most `dim_K V / 2` passes through its loop. -/
